@@ -340,6 +340,53 @@ def run_noisy(ctx, i, rng):
     ctx.check(close(out2, out), 'noisy_module:not_reproducible', lambda: dict(case=desc))
 
 
+def run_noisy_custom_vjp(ctx, i, rng):
+  """nn.custom_vjp around a module that draws random numbers: the forward value is that of the original function whether or not the
+  program is being differentiated and whether or not it is jitted (under jit JAX traces both the primal function and the forward
+  rule: both must see the same rng positions)."""
+  import jax
+  import jax.numpy as jnp
+  from flax.core import unfreeze
+  H = host_classes()
+  Host = H['Host']
+  d = rng.randint(1, 3)
+  inner = gen_inner(rng, d)
+  ops = list(inner[2])
+  for _ in range(rng.randint(1, 2)):
+    ops.insert(rng.randint(0, len(ops)), rng.choice([('noise', 'noise'), ('noise', 'other'), ('dropout', 0.5)]))
+  inner = (inner[0], inner[1], tuple(ops))
+  kind = ['custom_vjp', 'custom_vjp_inputs'][i % 2]
+  desc = dict(kind=kind, inner=repr(inner)[:600], d=d, noisy=True)
+  with ctx.case('noisy_custom_vjp', i, desc, nontrivial=True):
+    nr = np.random.default_rng(rng.getrandbits(32))
+    primals = make_primals(nr, 1, d, b=3)
+    rngs = {'noise': jax.random.key(1000 + i), 'other': jax.random.key(2000 + i), 'dropout': jax.random.key(3000 + i)}
+    V = unfreeze(Host('plain', inner, d).init(dict(rngs, params=jax.random.key(i)), primals, None))
+    y_plain = Host('plain', inner, d).apply(V, primals, None, rngs=rngs, mutable=['state'])[0]['y']
+    host = Host(kind, inner, d)
+
+    def app(params, x):
+      VV = dict(V, params=params)
+      return host.apply(VV, (x,), None, rngs=rngs, mutable=['state'])[0]['y']
+
+    x = primals[0]
+    forms = {
+        'eager': lambda: app(V['params'], x),
+        'jit': lambda: jax.jit(app)(V['params'], x),
+        'vjp': lambda: jax.vjp(app, V['params'], x)[0],
+        'vjp_of_jit': lambda: jax.vjp(jax.jit(app), V['params'], x)[0],
+        'jit_of_vjp': lambda: jax.jit(lambda p, xx: jax.vjp(app, p, xx)[0])(V['params'], x),
+        'value_and_grad_of_jit': lambda: jax.value_and_grad(lambda p, xx: jnp.sum(jax.jit(app)(p, xx) ** 2) , has_aux=False)(V['params'], x)[0],
+    }
+    want_sq = jnp.sum(y_plain ** 2)
+    for name, fn in forms.items():
+      got = fn()
+      ctx.op('nn.custom_vjp(noisy module):' + name)
+      want = want_sq if name == 'value_and_grad_of_jit' else y_plain
+      ctx.check(close(got, want), 'custom_vjp:forward_value_changes_under_differentiation:' + name,
+                lambda: dict(case=desc, got=np.asarray(got).ravel()[:6].tolist(), want=np.asarray(want).ravel()[:6].tolist()))
+
+
 def _check_published_once(ctx, desc, V, upd, inner):
   """Counters of the differentiated sub-module advance by exactly the number of executions of one forward pass."""
   from flax.core import unfreeze
@@ -420,6 +467,8 @@ def run_custom_vjp_inputs(ctx, i, rng):
 def run(ctx):
   for i in ctx.indices(48 if ctx.tier == 'quick' else 480, 'noisy'):
     run_noisy(ctx, i, ctx.rng('noisy', i))
+  for i in ctx.indices(16 if ctx.tier == 'quick' else 160, 'noisy_custom_vjp'):
+    run_noisy_custom_vjp(ctx, i, ctx.rng('noisy_custom_vjp', i))
   for i in ctx.indices(15 if ctx.tier == 'quick' else 150, 'custom_vjp_inputs'):
     run_custom_vjp_inputs(ctx, i, ctx.rng('cvi', i))
   for i in ctx.indices(240 if ctx.tier == 'quick' else 3600, 'case'):
